@@ -15,7 +15,7 @@ R05.5 the shared secret is padded with number_to_string(secret, p), p the field 
 from sa.values import *
 from sa.lin import Lin
 from sa.model import AnalysisError
-from .common import world, short, proved_equal
+from .common import world, short, proved_equal, pmap
 from .c11 import subterms
 
 SELF = -7
@@ -31,6 +31,42 @@ def ecdh_self(W, st=None):
         "public_key": VSym(("field", "ECDH.public_key"), cls=frozenset(["VerifyingKey"]), nullable=True),
     }
     return obj, st
+
+
+def _loader_task(item):
+    name, (ctor, objloader) = item
+    W = world()
+    lq = "ecdh:ECDH." + name
+    it = W.interp()
+    for w in (ctor, objloader, "keys:VerifyingKey.from_public_point", "keys:VerifyingKey.from_string"):
+        it.watch_results[w] = []
+    obj, st = ecdh_self(W)
+    rets, raises = it.analyse(lq, [obj, VBytes(("param", "string"))], state=st)
+    bad_exc = [(r.exc, short(r.site), r.why[:150], r.witness()[:400], r.site[2][:60]) for r in raises if r.exc in ("AttributeError", "TypeError")]
+    cc = [c for c in it.watch_results[ctor] if c[0] == lq]
+    oo = [c for c in it.watch_results[objloader] if c[0] == lq]
+    ok = bool(cc) and bool(oo)
+    results = {term_of(v) for c in cc for v, _s in c[5]}
+    for c in oo:
+        ok &= term_of(c[2][1]) in results
+    for c in cc:
+        vp = c[3].get("validate_point")
+        if vp is not None and not (isinstance(vp, VConst) and vp.v is True):
+            ok = False
+        if len(c[2]) > 4:
+            ok = False
+    for c in it.watch_results["keys:VerifyingKey.from_string"]:
+        vp = c[3].get("validate_point")
+        if vp is not None and not (isinstance(vp, VConst) and vp.v is True):
+            ok = False
+    if name.startswith("load_received"):
+        for c in it.watch_results["keys:VerifyingKey.from_public_point"]:
+            a = c[2]
+            vp = c[3].get("validate_point", a[4] if len(a) > 4 else None)
+            if vp is not None and not (isinstance(vp, VConst) and vp.v is True):
+                ok = False
+        ok &= not [c for c in it.watch_results["keys:VerifyingKey.from_public_point"] if c[0] == lq]
+    return name, ctor, objloader, bad_exc, bool(ok)
 
 
 def run(chk):
@@ -92,47 +128,16 @@ def run(chk):
         "load_received_public_key_der": ("keys:VerifyingKey.from_der", "ecdh:ECDH.load_received_public_key"),
         "load_received_public_key_pem": ("keys:VerifyingKey.from_pem", "ecdh:ECDH.load_received_public_key"),
     }
+    results = pmap(_loader_task, sorted(loaders.items()))
     n = 0
-    for name, (ctor, objloader) in sorted(loaders.items()):
+    for name, ctor, objloader, bad_exc, ok in results:
         lq = "ecdh:ECDH." + name
-        it = W.interp()
-        for w in (ctor, objloader, "keys:VerifyingKey.from_public_point", "keys:VerifyingKey.from_string"):
-            it.watch_results[w] = []
-        obj, st = ecdh_self(W)
-        rets, raises = it.analyse(lq, [obj, VBytes(("param", "string"))], state=st)
         n += 1
-        for r in raises:
-            if r.exc in ("AttributeError", "TypeError"):
-                chk.ob("R05.4", "%s: unset curve/key never dereferenced" % name, False, loc=short(r.site), key="C05|R05.4|%s|%s|%s" % (name, r.exc, r.site[2][:60]),
-                       detail="%s may escape %s: %s" % (r.exc, name, r.why[:150]), witness=r.witness()[:400])
-        if not [r for r in raises if r.exc in ("AttributeError", "TypeError")]:
+        for exc, loc, why, wit, text in bad_exc:
+            chk.ob("R05.4", "%s: unset curve/key never dereferenced" % name, False, loc=loc, key="C05|R05.4|%s|%s|%s" % (name, exc, text),
+                   detail="%s may escape %s: %s" % (exc, name, why), witness=wit)
+        if not bad_exc:
             chk.ob("R05.4", "%s: unset curve/key never dereferenced" % name, True, loc=lq)
-        cc = [c for c in it.watch_results[ctor] if c[0] == lq]
-        oo = [c for c in it.watch_results[objloader] if c[0] == lq]
-        ok = bool(cc) and bool(oo)
-        results = {term_of(v) for c in cc for v, _s in c[5]}
-        for c in oo:
-            ok &= term_of(c[2][1]) in results
-        for c in cc:
-            vp = c[3].get("validate_point")
-            if vp is not None and not (isinstance(vp, VConst) and vp.v is True):
-                ok = False
-            if len(c[2]) > 4:      # positional validate_point
-                ok = False
-        # validation never switched off anywhere below this loader
-        for c in it.watch_results["keys:VerifyingKey.from_string"]:
-            vp = c[3].get("validate_point")
-            if vp is not None and not (isinstance(vp, VConst) and vp.v is True):
-                ok = False
-        if name.startswith("load_received"):
-            for c in it.watch_results["keys:VerifyingKey.from_public_point"]:
-                a = c[2]
-                vp = c[3].get("validate_point", a[4] if len(a) > 4 else None)
-                if vp is not None and not (isinstance(vp, VConst) and vp.v is True) and not (isinstance(vp, VSym) and False):
-                    # forwarded default True arrives as Const(True)
-                    ok = False
-            ok &= not [c for c in it.watch_results["keys:VerifyingKey.from_public_point"] if c[0] == lq]
-        retok = True
         chk.ob("R05.2", "%s: key from %s (validation on), stored through %s" % (name, ctor.split(":")[1], objloader.split(".")[-1]), ok, loc=lq, key="C05|R05.2|%s" % name,
                detail="%s does not obtain its key from %s with validation on and pass it to %s" % (name, ctor, objloader))
     chk.floor("R05.2", "byte/DER/PEM loaders", n, 6)
